@@ -495,6 +495,31 @@ func CheckC15(c *Ctx) (*Outcome, error) {
 		return nil, err
 	}
 	found = append(found, fcov...)
+	// @cwd/ paths that leave the invocation directory through '..' (goverter run inside a
+	// package directory, as go:generate does)
+	fup, err := c.RunCases(2, func(i int) ([]*History, error) {
+		rng := c.Rng("c15-cwd-parent", i)
+		spec := &LSpec{UserPkgs: map[string]string{"svc/shared": "sharedconv"}, PkgNames: map[string]string{"svc/conv": "conv"}, CwdDir: "svc/conv"}
+		spec.Convs = []LConv{
+			{Dir: "svc/conv", File: "conv.go", Kind: "interface", Name: "Up", Version: 1, OutFile: "@cwd/../shared/out.go"},
+			{Dir: "svc/conv", File: "conv.go", Kind: "interface", Name: "Uq", Version: 1, OutFile: "@cwd/gen/plain.go", Format: "function"},
+		}
+		if i == 1 {
+			spec.Convs[0].OutFile = "@cwd/../../top-up/out.go"
+		}
+		w := spec.World("c15up")
+		var hs []*History
+		for _, cw := range []string{"sub:svc/conv", "sublink:svc/conv"} {
+			g := &GenSpec{Plan: planIdentity(), Spec: spec, Expect: "ok", Cwd: cw}
+			hs = append(hs, &History{World: w, Loc: rng.IntN(len(locNames)), Ops: []Op{genOp(g)}})
+		}
+		c.Stats.Add("worlds", 1)
+		return hs, nil
+	}, JudgeC15, onObs)
+	if err != nil {
+		return nil, err
+	}
+	found = append(found, fup...)
 	hmk := func(i int) ([]*History, error) {
 		rng := c.Rng("c15-history", i)
 		spec := DrawLayout(rng, 1+rng.IntN(4), LayoutOpts{CustomTags: true, Guarded: true, UserPkgs: true})
